@@ -177,6 +177,17 @@ pub fn job_c14(out_dir: &str, tier: &str, seed: u64) {
         if *c2 < input.len() && c2 != c1 { cutsets.push(vec![*c2]); }
         run_variants(&mut sh, "c14", &["C14"], &gen::merge(&all, &json!({"strict": false})), input, &cutsets, "sim", &mut n);
     }
+    // (2c) attribute names / values whose decoded length differs from their byte length (legacy encodings, malformed
+    // UTF-8): every reported range is in bytes of the source
+    for (enc, doc) in [("windows-1252", &b"<p>x</p><a title=\"caf\xe9 cr\xe8me\" x=\xe9 data-\xe9=v>t</a><img alt='\xfc\xfc'>"[..]),
+                       ("shift_jis", &b"<a title=\"\x93\xfa\x96\x7b\" x=\x83\x5c y='\xb1'>t</a><b k=\x93\xfa>"[..]),
+                       ("gbk", &b"<a t=\"\xd6\xd0\xce\xc4\" \xd6\xd0=1>t</a>"[..]),
+                       ("utf-8", &b"<a t=\"\xff\xfe\" u=\xc3 v='ok\xe2\x82'>t</a><i w=\"\xe2\x82\xac\xe2\x82\xac\">"[..]),
+                       ("utf-8", "<a title=\"caf\u{e9} \u{65e5}\u{672c} \u{1F600}\" \u{e9}=1>t</a>".as_bytes())] {
+        let mut cutsets: Vec<Vec<usize>> = vec![vec![], (1..doc.len()).collect()];
+        for c in 1..doc.len() { cutsets.push(vec![c]); }
+        run_variants(&mut sh, "c14", &["C14"], &gen::merge(&all, &json!({"strict": false, "enc": enc})), doc, &cutsets, "sim", &mut n);
+    }
     // (3) long text so that the text decoder's internal buffer (1 KiB) is crossed
     for i in 0..(if quick { 12 } else { 200 }) {
         let mut input = b"<p>".to_vec();
@@ -203,7 +214,10 @@ pub fn job_c16(out_dir: &str, tier: &str, seed: u64) {
         json!([{"op":"set_name","a":["x-y"]},{"op":"set_attr","a":["B","2"]},{"op":"rm_attr","a":["b"]},{"op":"set_attr","a":["b","3"]}])];
     let variants: Vec<Value> = (0..10).map(|i| capture_all_c16(i % 2 == 1, &edit_scripts[i / 2])).collect();
     let tags = tag_grammar(&mut rng, !quick);
-    let contexts: [(&str, &str); 5] = [("", ""), ("<svg>", "</svg>"), ("<math>", "</math>"), ("<svg><desc>", "</desc></svg>"), ("<div>x", "</div>")];
+    // (nested roots of the same namespace: the inner end tag must not end the outer one)
+    let contexts: [(&str, &str); 9] = [("", ""), ("<svg>", "</svg>"), ("<math>", "</math>"), ("<svg><desc>", "</desc></svg>"), ("<div>x", "</div>"),
+        ("<svg><svg></svg>", "<circle/></svg>"), ("<math><mrow><math></math>", "<mspace/></mrow></math>"), ("<svg><g><svg><svg></svg></svg>", "</g></svg>"),
+        ("<math><mi><math></math></mi>", "</math>")];
     for (ti, tag) in tags.iter().enumerate() {
         for (ci, (pre, post)) in contexts.iter().enumerate() {
             if quick && (ti + ci) % 5 >= 2 && ci != 0 { continue; }
